@@ -368,7 +368,7 @@ func (s *SecureChannel) Receive(ctx context.Context) *MessageBody {
 
 			case 'C':
 				s.chunks[reqID] = append(s.chunks[reqID], chunk)
-				if n := len(s.chunks[reqID]); uint32(n) > s.c.MaxChunkCount() {
+				if n, max := len(s.chunks[reqID]), s.c.MaxChunkCount(); max > 0 && uint32(n) > max {
 					delete(s.chunks, reqID)
 					s.chunksMu.Unlock()
 					msg.Err = errors.Errorf("too many chunks: %d > %d", n, s.c.MaxChunkCount())
@@ -390,7 +390,7 @@ func (s *SecureChannel) Receive(ctx context.Context) *MessageBody {
 				return msg
 			}
 
-			if uint32(len(b)) > s.c.MaxMessageSize() {
+			if max := s.c.MaxMessageSize(); max > 0 && uint32(len(b)) > max {
 				msg.Err = errors.Errorf("message too large: %d > %d", uint32(len(b)), s.c.MaxMessageSize())
 				return msg
 			}
@@ -1057,6 +1057,9 @@ func (s *SecureChannel) sendAsyncWithTimeout(
 	if err != nil {
 		return nil, err
 	}
+	if err := s.checkPeerLimits(m, chunks); err != nil {
+		return nil, err
+	}
 
 	for i, chunk := range chunks {
 		select {
@@ -1091,18 +1094,52 @@ func (s *SecureChannel) sendAsyncWithTimeout(
 	return resp, nil
 }
 
+// checkPeerLimits returns an error if the message encoded in chunks exceeds
+// the MaxMessageSize or MaxChunkCount the peer announced in the HEL/ACK
+// handshake. A limit of zero means no limit.
+func (s *SecureChannel) checkPeerLimits(m *Message, chunks [][]byte) error {
+	if m.Header.MessageType == MessageTypeOpenSecureChannel {
+		return nil
+	}
+
+	tooLarge := ua.StatusBadRequestTooLarge
+	if s.kind == server {
+		tooLarge = ua.StatusBadResponseTooLarge
+	}
+
+	if max := s.c.PeerMaxChunkCount(); max > 0 && uint32(len(chunks)) > max {
+		return errors.Errorf("uasc: too many chunks: %d > %d: %w", len(chunks), max, tooLarge)
+	}
+
+	if max := s.c.PeerMaxMessageSize(); max > 0 {
+		// the message size is the size of the body without the chunk headers
+		const chunkHeaderSize = 24
+		var size uint64
+		for _, chunk := range chunks {
+			size += uint64(len(chunk) - chunkHeaderSize)
+		}
+		if size > uint64(max) {
+			return errors.Errorf("uasc: message too large: %d > %d: %w", size, max, tooLarge)
+		}
+	}
+	return nil
+}
+
 func (s *SecureChannel) writeMessageChunks(ctx context.Context, instance *channelInstance, reqID uint32, m *Message, body any) (int, error) {
 	// Large service payloads may exceed a single UASC message body. Encode the
 	// full logical message up front, then stream each chunk in sequence while the
 	// caller holds the channel-instance lock.
 	//
-	// TODO: enforce the negotiated MaxMessageSize / MaxChunkCount here and abort
-	// with Bad_ResponseTooLarge instead of writing an over-limit chunk stream.
-	// These limits are already enforced on the receive path (see the chunk-count
-	// and message-size checks in Receive) but not on send (OPC UA Part 6 §6.7.2;
-	// cf. open62541 adjustCheckMessageLimitsSym, .NET MessageLimitsExceeded).
+	// The MaxMessageSize / MaxChunkCount the peer announced are enforced before
+	// the first chunk is written so that an over-limit message is refused with
+	// Bad_ResponseTooLarge instead of writing an over-limit chunk stream
+	// (OPC UA Part 6 §6.7.2; cf. open62541 adjustCheckMessageLimitsSym,
+	// .NET MessageLimitsExceeded).
 	chunks, err := m.EncodeChunks(instance.maxBodySize)
 	if err != nil {
+		return 0, err
+	}
+	if err := s.checkPeerLimits(m, chunks); err != nil {
 		return 0, err
 	}
 
